@@ -915,6 +915,9 @@ func init() {
 			r.Raw = append(r.Raw, e.ID())
 		}
 		for i := range ids {
+			if noScribble {
+				break
+			}
 			ids[i].SetX(-1)
 			ids[i].SetZoom(-1, -1)
 		}
